@@ -105,6 +105,7 @@ struct VData : Profile {
         p.knobs["ndds"]    = kr.chance(0.5) ? kr.range(2, 8) : 16;
         p.knobs["longnames"] = kr.chance(0.25) ? 1 : 0; // field names of 124..128 characters
         p.knobs["namesdesc"] = kr.chance(0.5) ? 1 : 0;  // longer field names first
+        p.knobs["deforder"] = kr.chance(0.5) ? (int64_t)kr.range(1, 2) : 0; // fields defined 1: in reverse, 2: after one that is never used -- the field list keeps its order
         if (kr.chance(0.6))
             p.knobs["vsbuf"] = kr.chance(0.5) ? kr.range(8, 64) : kr.range(65, 600); // internal transfer buffer (hook)
         if (kr.chance(0.4)) {
@@ -361,6 +362,15 @@ struct VData : Profile {
                     for (int j = 0; j < t.nf; j++) {
                         t.f[j].type  = modn(o.arg(2 + 2 * j), NFT);
                         t.f[j].order = (int)std::max<int64_t>(1, std::min<int64_t>(3, o.arg(3 + 2 * j)));
+                    }
+                    // the order of the definitions is not the order of the field list (which is the order of the record)
+                    int deforder = (int)p.knob("deforder", 0);
+                    if (deforder == 2 && VSfdefine(vk, "never_used", DFNT_FLOAT64, 3) == FAIL)
+                        ctx.fail("fdefine-refused", "fdefine-refused", "VSfdefine of a field that is never used failed");
+                    if (deforder)
+                        ctx.probe("definitions-in-another-order");
+                    for (int q = 0; q < t.nf; q++) {
+                        int j = deforder == 1 ? t.nf - 1 - q : q;
                         if (VSfdefine(vk, fname(j).c_str(), FTS[t.f[j].type].code, t.f[j].order) == FAIL)
                             ctx.fail("fdefine-refused", "fdefine-refused", strf("VSfdefine(type %d, order %d) failed", (int)FTS[t.f[j].type].code, t.f[j].order));
                     }
